@@ -511,6 +511,26 @@ theorem deep_copy_answers_like_the_original {s : Seq} (h : Reachable s) (f : Nat
   ⟨Reachable.copied f h, rfl, rfl, rfl, index_relabel f s, contains_relabel f s, find_relabel h.wf f,
    getNodes_relabel h.wf f⟩
 
+/-- **An item owns the content assigned to it** (`item.ContentSequence = seq`, pool step `attach`; what seeded change
+R6C13-1 broke by storing `seq` itself): the stored sequence is a NEW one (a new slot, built by the regenerated constructor
+call — `tie_attribute_setter_flags`, `Gen.csAttachRebuilds` of T14v) holding the same items, so a later operation through
+any name the caller kept for `seq` (accepted or refused, any kind that works in place) leaves the item's content — list
+and index — exactly as assigned. -/
+theorem attached_content_is_owned {p : APool} {a k : Nat} {s q : Seq} (ha : slotOf p a = some k)
+    (hs : p.slots[k]? = some s) (hq : derive s (.attach 0) = .ok q) :
+    (apoolStep p (.base (.attach a))).1.slots = p.slots ++ [q] ∧ q.items = s.items ∧
+    ∀ b op, slotOf (apoolStep p (.base (.attach a))).1 b = some k → rebinds op = false →
+      (apoolStep (apoolStep p (.base (.attach a))).1 (.base (.on b op))).1.slots[p.slots.length]? = some q := by
+  have hlt : k < p.slots.length := (List.getElem?_eq_some_iff.mp hs).1
+  have e : (apoolStep p (.base (.attach a))).1.slots = p.slots ++ [q] := by
+    simp only [apoolStep, ha, hs, hq]
+  refine ⟨e, (construct_ok (derive_attach hq)).1, fun b op hb hop => ?_⟩
+  have hs1 : (apoolStep p (.base (.attach a))).1.slots[k]? = some s := by
+    rw [e, List.getElem?_append_left hlt]; exact hs
+  have h4 := (on_member_updates_slot op hb hs1 hop).2.2.2 p.slots.length (by omega)
+  rw [h4, e]
+  simp
+
 end Copies
 
 /-- **The state of the object is the modelled one** (regenerated, target T14s): the methods of the class assign exactly
@@ -585,6 +605,10 @@ example :
 example : (run s0 [.append (it 0 3), .insert 0 (it 0 4)]).items = (run s0 [.insert 0 (it 0 4), .append (it 0 3)]).items ∧
     ((run s0 [.append (it 0 3), .insert 0 (it 0 4)]).lut 0).map (·.uid) = [1, 3, 4] ∧
     ((run s0 [.insert 0 (it 0 4), .append (it 0 3)]).lut 0).map (·.uid) = [1, 4, 3] := by decide
+/-- the item owns what it was assigned: attach, then append through the caller's name -/
+example :
+    let p := apoolRun (start s0) [.base (.attach 0), .base (.on 0 (.append (it 0 3)))]
+    (view p).map (fun s => s.items.map (·.uid)) = [[1, 2, 3], [1, 2]] := by decide
 example : Reachable s0 := Reachable.ctor (items := [it 0 1, it 1 2]) (r := false) (sr := true) rfl
 
 end Round2Examples
